@@ -109,3 +109,108 @@ pub proof fn lemma_or_shift(coef: u64, b: bool, i: u64)
         requires coef & m == 0, m == ((1u64 << ((i + 1) as u64)) - 1) as u64, i < 63, bv <= 1;
     lemma_u64_shl_is_mul(bv, i);
 }
+
+// ---- LSB-first bit strings (DEFLATE packs bits starting at the least significant bit of each byte) ----
+pub open spec fn lsb_bits(x: nat, n: nat) -> Seq<bool> { Seq::new(n, |i: int| bit_of(x, i as nat)) }
+
+pub open spec fn bytes_bits(b: Seq<u8>) -> Seq<bool> {
+    Seq::new(8 * b.len(), |i: int| bit_of(b[i / 8] as nat, (i % 8) as nat))
+}
+
+pub proof fn lemma_bit_of_add(x: nat, y: nat, k: nat, i: nat)
+    requires x < pow2(k),
+    ensures bit_of(x + y * pow2(k), i) == (if i < k { bit_of(x, i) } else { bit_of(y, (i - k) as nat) }),
+    decreases i
+{
+    lemma2_to64();
+    lemma_pow2_pos(k);
+    let z = x + y * pow2(k);
+    if k == 0 {
+        assert(x == 0);
+        assert(y * pow2(0) == y) by (nonlinear_arith) requires pow2(0) == 1;
+    } else {
+        lemma_pow2_unfold(k);
+        let pk1 = pow2((k - 1) as nat);
+        assert(y * pow2(k) == 2 * (y * pk1)) by (nonlinear_arith) requires pow2(k) == 2 * pk1;
+        if i == 0 {
+            assert(pow2(0) == 1);
+            assert(bit_of(z, 0) == (z % 2 == 1));
+            assert(bit_of(x, 0) == (x % 2 == 1));
+        } else {
+            lemma_bit_of_half(z, (i - 1) as nat);
+            lemma_bit_of_half(x, (i - 1) as nat);
+            assert(z / 2 == x / 2 + y * pk1);
+            assert(x / 2 < pk1);
+            lemma_bit_of_add(x / 2, y, (k - 1) as nat, (i - 1) as nat);
+        }
+    }
+}
+
+/// appending the low n bits of y after the k bits of x (x < 2^k)
+pub proof fn lemma_lsb_bits_add(x: nat, y: nat, k: nat, n: nat)
+    requires x < pow2(k),
+    ensures lsb_bits(x + y * pow2(k), k + n) == lsb_bits(x, k) + lsb_bits(y, n),
+{
+    let z = x + y * pow2(k);
+    assert forall|i: int| 0 <= i < k + n implies lsb_bits(z, k + n)[i] == (lsb_bits(x, k) + lsb_bits(y, n))[i] by {
+        lemma_bit_of_add(x, y, k, i as nat);
+    }
+    assert(lsb_bits(z, k + n) =~= lsb_bits(x, k) + lsb_bits(y, n));
+}
+
+pub proof fn lemma_bit_of_small(x: nat, k: nat, i: nat)
+    requires x < pow2(k), i >= k,
+    ensures !bit_of(x, i),
+{
+    lemma_pow2_le(k, i);
+    lemma_pow2_pos(i);
+    vstd::arithmetic::div_mod::lemma_basic_div(x as int, pow2(i) as int);
+}
+
+/// taking one byte off an LSB-first bit string
+pub proof fn lemma_lsb_split8(x: nat, n: nat)
+    requires n >= 8,
+    ensures lsb_bits(x, n) == lsb_bits(x % 256, 8) + lsb_bits(x / 256, (n - 8) as nat),
+{
+    lemma2_to64();
+    let lo = x % 256; let hi = x / 256;
+    assert(x == lo + hi * pow2(8)) by { assert(pow2(8) == 256); }
+    lemma_lsb_bits_add(lo, hi, 8, (n - 8) as nat);
+}
+
+pub proof fn lemma_bytes_bits_push(b: Seq<u8>, v: u8)
+    ensures bytes_bits(b.push(v)) == bytes_bits(b) + lsb_bits(v as nat, 8),
+{
+    assert(bytes_bits(b.push(v)) =~= bytes_bits(b) + lsb_bits(v as nat, 8)) by {
+        assert forall|i: int| 0 <= i < 8 * (b.len() + 1) implies bytes_bits(b.push(v))[i] == (bytes_bits(b) + lsb_bits(v as nat, 8))[i] by {
+            if i < 8 * b.len() { assert(b.push(v)[i / 8] == b[i / 8]); } else { assert(i / 8 == b.len()); assert(i % 8 == i - 8 * b.len()); }
+        }
+    }
+}
+
+/// u32: or-ing a left-shifted value onto a buffer that holds fewer bits is an addition
+pub proof fn lemma_or_shift_u32(buffer: u32, bits: u32, k: u32, len: u32)
+    requires k < 32, k + len <= 32, (buffer as nat) < pow2(k as nat), (bits as nat) < pow2(len as nat),
+    ensures (buffer | (bits << k)) as nat == buffer as nat + bits as nat * pow2(k as nat),
+        (buffer as nat + bits as nat * pow2(k as nat)) < pow2((k + len) as nat),
+{
+    lemma2_to64(); lemma2_to64_rest();
+    lemma_pow2_le((k + len) as nat, 32);
+    lemma_pow2_adds(k as nat, len as nat);
+    lemma_pow2_pos(k as nat);
+    let pk = pow2(k as nat); let pl = pow2(len as nat);
+    assert((bits as nat) * pk <= (pl - 1) * pk) by (nonlinear_arith) requires (bits as nat) < pl, pk > 0;
+    assert((pl - 1) * pk == pl * pk - pk) by (nonlinear_arith);
+    assert(pk * pl == pl * pk) by (nonlinear_arith);
+    assert(bits as nat * pk <= u32::MAX);
+    lemma_u32_shl_is_mul(bits, k);
+    lemma_u32_shl_is_mul(1, k);
+    let m: u32 = (1u32 << k);
+    assert(m as nat == pk);
+    let sh: u32 = bits << k;
+    lemma_u32_shr_is_div(sh, k);
+    assert(sh as nat == bits as nat * pk);
+    assert((bits as int * pk as int) / (pk as int) == bits as int) by (nonlinear_arith) requires pk > 0;
+    assert((sh >> k) == bits);
+    assert((buffer | sh) == buffer + sh) by (bit_vector) requires buffer < m, m == (1u32 << k), sh == bits << k, k < 32, (sh >> k) == bits;
+}
